@@ -45,7 +45,7 @@ B = Bounded(
     "scripted TightCouplers; tightCoupling on/off, max iters 1..4, exempt cycles); (3) seeded add/remove/get sequences; "
     "distinct = distinct configuration",
     "(1) 780 vectors exhaustive + 150/1500 larger (<= 10 cycles x 0..12 steps), 300/3000 histories; "
-    "(2) quick: 84 vectors x (2 runs from (0,0) + 3 at random restart points), one seeded stack each; thorough: 84 vectors x ALL restart points x 8 stacks (12 from (0,0)); restart set inside a BOL hook: ALL 570 restart points of the 84 vectors x 1/4 stacks; real MainInterface+DB restart: all restart points of 6 seeded histories (quick) / all 84 (thorough); "
+    "(2) quick: 84 vectors x (2 runs from (0,0) + 2 at random restart points), one seeded stack each; thorough: 84 vectors x ALL restart points x 8 stacks (12 from (0,0)); restart set inside a BOL hook: ALL 570 restart points of the 84 vectors x 1/4 stacks; real MainInterface+DB restart: all restart points of 3 seeded 2-cycle histories (quick) / 40 seeded histories of the 84 (thorough); "
     "(3) 150/1500 sequences of <= 6/10 stack operations",
 )
 THOROUGH = B.thorough()
@@ -557,7 +557,12 @@ def run_operator(base_cs, r, conf):
     try:
         o.operate()
     except Exception as e:  # noqa: BLE001
-        B.violation("schedule." + rid + "error" if rid else "run.unexpected-error", "Operator.operate() raised %s: %s" % (type(e).__name__, str(e)[:160]), inp)
+        msg = "Operator.operate() raised %s: %s" % (type(e).__name__, str(e)[:160])
+        first_boc = [x[2][0] for x in log if x[1] == "BOC"][:1]
+        if rid and first_boc and first_boc[0] != conf["startCycle"]:
+            B.violation("schedule." + rid + "wrong-start-cycle", "the restart point is set during the BOL event, but the cycle loop began at cycle %d (then: %s)" % (first_boc[0], msg), inp)
+        else:
+            B.violation("schedule." + rid + "error" if rid else "run.unexpected-error", msg, inp)
         return
     finally:
         if dbi is not None:
@@ -712,7 +717,7 @@ def part_operator(base_cs, r):
         if THOROUGH:
             chosen = [(p, k) for p in points for k in range(12 if p == (0, 0) else 8)]
         else:
-            chosen = [((0, 0), 0), ((0, 0), 1), (rng.choice(points), 0), (rng.choice(points), 1), (rng.choice(points), 2)]
+            chosen = [((0, 0), 0), ((0, 0), 1), (rng.choice(points), 0), (rng.choice(points), 1)]
         for (sc, sn), _k in chosen:
             conf = gen_conf(rng, bs, sc, sn)
             if (sc, sn) != (0, 0):
@@ -731,7 +736,10 @@ def part_operator(base_cs, r):
                     B.case(("run", json.dumps(conf, sort_keys=True)), sample=None)
                     run_operator(base_cs, r, conf)
     # the real MainInterface restarting from the database of a previous full run (loadStyle fromDB, startCycle/startNode)
-    hist = out if THOROUGH else rng.sample([v for v in out if len(v) >= 2], 6)
+    if THOROUGH:
+        hist = rng.sample(out, 40)
+    else:
+        hist = rng.sample([v for v in out if len(v) == 2 and 1 <= sum(v) <= 3], 3)  # each DB write costs ~0.2 s per node
     for bs in hist:
         for sc in range(len(bs)):
             for sn in range(bs[sc] + 1):
